@@ -1,5 +1,5 @@
 """Registry of the claimed properties: Lean module, correspondence parts, trusted base."""
-from .domains import upcast, bus
+from .domains import upcast, bus, store, state
 
 COMMON_ASSUME = [
     "the hand-written Lean model equals the Go code only on the inputs the correspondence ran (differential testing, reported under coverage)",
@@ -30,8 +30,23 @@ BUS_TB = ["handler/filter/hook bodies are restricted to the action language of M
           "async goroutines are run in spawn order at `drain` (one legal schedule, forced through the verif hook); other schedules are C02/C04/C06/C07's interleaving model",
           "Go maps modelled as functions from keys to slices; reflect.Value.Pointer() identity modelled by `hid`", "encoding/json of the harness event structs"]
 
+BUS_TEXT = {
+ "C01": ("Proof, for every program of the model (arbitrary re-entrant handler bodies, every fuel): the sharded registry refines the flat per-type specification for EVERY routing function (so a handler of another type is never reached, however many types share a shard); each registry call is characterised exactly (Subscribe appends, Unsubscribe removes exactly the first registration with that code pointer, Clear/ClearAll, queries); the handlers a publish enters directly form a sublist of the snapshot taken when it began (order, at-most-once, published value and type, none subscribed during delivery), and with a background context every accepting registration of the snapshot is invoked or parked whatever the other handlers do.",
+         "Trusted: Lean kernel (+propext, Classical.choice, Quot.sound), the correspondence harness, Go maps as functions, reflect.Value.Pointer() identity as `hid`. Handler bodies are limited to the model's action language. Known finding: Unsubscribe identifies handlers by code pointer (two closures from one function literal are indistinguishable) — the theorem `unsubscribe_spec` is stated in terms of that identity."),
+ "C05": ("Proof: no panic ever reaches the top level of a run; per invocation the panic handler is called exactly once iff the body panicked (with event, handler kind and panic value) and the panic is cleared; delivery completeness is proved for arbitrary handler bodies, panicking ones included; a fired once-handler (panicking or not) is never registered at the end of a run.",
+         "Trusted: as C01. 'Sequential handler can run again / Wait still returns' concern the mutex and the in-flight counter, which live in the interleaving model (C06/C07); here they are covered by the correspondence (wait op, repeated publishes) only."),
+ "C08": ("Proof: a publish with an already-cancelled context enters and parks no handler, consumes no once handler and leaves the registry alone; once the context is cancelled the rest of the dispatch loop is inert; the events of a publish are pre ++ mid ++ post with each configured before-hook exactly once in pre (before every handler entry), each after-hook exactly once in post (after every synchronous handler returned) and no hook of this publish in between; context-aware handlers receive the publish context.",
+         "Trusted: as C01; context values/cancellation propagation through context.WithValue/WithCancel is Go's, sampled by the harness (root identity read back from the received context)."),
+ "C09": ("Proof: the bus configuration is a function of which options were given, not of their order (every permutation with one store gives the same bus); persistEvent appends exactly one record per publish of an encodable event, before any handler entry, and the log the handlers see contains it; in every run the offsets handed out are 1,2,3,… (distinct, increasing) and the log has one record per successful append.",
+         "Trusted: as C01 + encoding/json of the harness events. Concurrent publishers (N publishes → N records under every interleaving) rely on storeMu being held across Append (extracted lock facts, C03) and are sampled by the concurrent harness, not proved here — partial for the 'schedules' quantifier."),
+ "C13": ("Proof: persistEvent case by case (no store / unencodable / accepted / rejected): a failed append leaves log and lastOffset unchanged, is attempted once, and is reported exactly once iff a handler is set; two runs differing only in the fault script have identical traces once persistence events are removed (delivery independent of persistence); offsets keep increasing across failures; no panic escapes.",
+         "Trusted: as C09; timeouts are modelled as failing appends (the harness uses a store that hangs until the persistence timeout expires)."),
+ "C20": ("Proof: whatever one API call appends to the trace is balanced and properly nested against any stack of open spans (each complete carries the id its start returned); span ids are never reused; handler complete carries err iff the body panicked, persist complete err iff the append failed, none for unencodable events; OnPublishStart/Complete bracket the publish and handler/persist spans opened at that depth are children of the publish span.",
+         "Trusted: as C01. The OpenTelemetry implementation itself (spans ended exactly once, counters) is tied only by correspondence through the recording Observability contract: partial for the OTel SDK part."),
+}
+
 def _bus(prop, module, rule, nq=400, nt=20000):
-    return dict(module=module,
+    return dict(module=module, ready=True, level_text=BUS_TEXT[prop][0], level_note=BUS_TEXT[prop][1],
                 parts=[dict(name="bus" + prop, domain="bus", domain_module="bus", gen=bus.make_gen(prop), n_quick=nq, n_thorough=nt, chunk=128)],
                 rule=rule, trusted_base=BUS_TB, assumptions=COMMON_ASSUME)
 
@@ -42,4 +57,31 @@ PROPS.update({
     "C09": _bus("C09", "Ebu.Props.C09", "as C01 on a persistent bus: options in random order (WithStore anywhere, sometimes twice), unencodable events, store faults, readLog from inside handlers; non-trivial = a record was appended and a handler ran"),
     "C13": _bus("C13", "Ebu.Props.C13", "as C09 with a fault script failing ~35% of appends (including the first, and consecutive ones) and 20% unencodable events; non-trivial = an append failed or the persistence error handler fired"),
     "C20": _bus("C20", "Ebu.Props.C20", "as C01 with a recording Observability always installed, persistence in 70% of cases; non-trivial = at least 6 callback events"),
+})
+
+STORE_TB = ["database/sql + modernc SQLite (statement semantics, AUTOINCREMENT)", "the durable-streams reference server (chunked reads) as modelled", "records are opaque ids; type/data/timestamp fidelity is checked by the harness on every returned event"]
+
+PROPS.update({
+    "C10": dict(module="Ebu.Props.C10", ready=True,
+        parts=[dict(name="store10", domain="store", domain_module="store", gen=store.gen_c10, n_quick=250, n_thorough=8000, chunk=32)],
+        rule="random op sequences (append/read/save/load/use other instance) on memory, SQLite (plain and batched, in-memory and file) and durable-streams (chunk sizes 1,2,3,5,all) with limits in {-1,0,1,2,3,7,100}, resume points = next offsets, any returned event's offset, offsets of earlier appends and garbage strings; every returned event is checked against the appended type (incl. empty/unicode/long), JSON document and timestamp instant (7 zones/precisions); non-trivial = >=2 non-empty reads",
+        trusted_base=STORE_TB, assumptions=COMMON_ASSUME,
+        known_finding_checks=[store.known_c10],
+        level_text="Proof: zero-padded offsets order like numbers (memory, durable-streams server); the memory and SQLite stores satisfy the paging contract PagedSpec for every log (SQLite with offsets compared numerically, garbage cursors rejected, ParseInt round trip); ANY store satisfying the contract reproduces the log under every chain of reads with every limits, resumed from next offsets or from any returned event's offset; streaming = unlimited read; offsets tables. Known findings are proved as witness theorems (sqlite_offsets_not_lex, ds_limit_loses_events, ds_event_offset_not_resumable) with the partial statement that does hold (ds_read_untruncated_partial).",
+        level_note="Trusted: Lean kernel + 3 standard axioms; correspondence harness; SQL engine and HTTP server/client below the stores. Timestamp/type/data fidelity and isolation of separately created stores are carried by the correspondence only (the model stores what it is given). KNOWN FINDINGS reported on every run: SQLite offsets not lexicographic; durable-streams Read truncation / synthetic offsets."),
+    "C11": dict(module="Ebu.Props.C11", ready=True,
+        parts=[dict(name="store11", domain="store", domain_module="store", gen=store.gen_c11, n_quick=250, n_thorough=8000, chunk=32)],
+        rule="logs of length 0..30 on all three stores, Replay from the oldest offset or after any appended event, batch sizes {-1,0,1,2,3,5,12,100}, streaming and paged (ReadStream hidden) paths, SQLite stream batching 0/1/2/3/7, one fault per replay: callback error at k, cancellation at k, j-th Read fails; non-trivial = a replay delivered something",
+        trusted_base=STORE_TB + ["database/sql notices a cancelled context asynchronously: the model lists the rows that may still be delivered (see DESIGN)"], assumptions=COMMON_ASSUME,
+        known_finding_checks=[store.known_c11],
+        level_text="Proof: streaming replay delivers every event once in order and returns nil; under any fault it delivers a gap-free prefix and returns nil only after everything; SQLite batched streaming is complete for every batch size >= 1 and a gap-free prefix under any fault; the paging fallback is complete for every batch size over every store satisfying the paging contract (memory and SQLite proved to) and a prefix under any fault. Known finding proved as witness (ds_replay_loses_events) with the partial statement ds_replay_untruncated_partial.",
+        level_note="Trusted: as C10. 'Replay never appends and never invokes handlers' is structural in the model (Replay has no access to the registry) and checked by the harness counters appends=0 handlers=0."),
+    "C18": dict(module="Ebu.Props.C18",
+        parts=[dict(name="state18", domain="state", domain_module="state", gen=state.make_gen("C18"), n_quick=300, n_thorough=10000, chunk=64)],
+        rule="random message sequences over 3 registered-able entity types (one with a custom name containing '/') + an unregistered one, 9 keys incl. '/', 'b/c', unicode, strict and non-strict, memory/SQLite/durable-streams, replays resumed from LastOffset at random points and a fresh one-session replay at the end; non-trivial = a collection is non-empty at some dump and a delete/reset/control occurred",
+        trusted_base=["encoding/json decoding of entity documents", "one backing store per collection"], assumptions=COMMON_ASSUME),
+    "C19": dict(module="Ebu.Props.C19",
+        parts=[dict(name="state19", domain="state", domain_module="state", gen=state.make_gen("C19"), n_quick=300, n_thorough=10000, chunk=64)],
+        rule="as C18 plus a table of 30 hostile/odd documents (case variants, duplicate keys, wrong types, nulls, missing parts) classified by the model, every helper-built message's JSON bytes parsed and compared with the model's encoder, and a byte-level fuzz of Apply (mutated + random bytes) judged on the implementation; non-trivial = raw documents or option combinations present",
+        trusted_base=["encoding/json (syntax, case-insensitive field matching as transcribed)"], assumptions=COMMON_ASSUME),
 })
